@@ -247,6 +247,13 @@ def main_check(pid, tier, seed, nruns=None, time_budget=None, workers=16):
             known_hits[k["id"]][1] += 1
         else:
             new.append(r)
+    bysigk = dict((k["signature"], k) for k in known if k.get("status") == "known" and k.get("property") == pid)
+    for r in results:
+        for sg, n in (r.get("known_hits") or {}).items():
+            k = bysigk.get(sg)
+            if k is not None:
+                known_hits.setdefault(k["id"], [k, 0, r])
+                known_hits[k["id"]][1] += 1
     exit_code = 0
     if harness:
         for r in harness[:3]:
